@@ -178,7 +178,7 @@ CHECKS = {
              'resolution of every type terminates once it passes; Resolve returns a verdict on EVERY schema AST; the descendant search terminates on every '
              'hierarchy and is exact. Correspondence: Go Resolve verdict and resolved types = model on ~4000 parsed schemas (text and JSON born, names with colons). '
              'Runtime oracle: all small parent / common-type graphs over one and two namespaces, random schemas, each resolved and used for validation in a guarded child.',
-        note=TB + 'The proof of resolve_type_terminates exposed F40 (namespace re-derived from the qualified name; stack overflow on a JSON schema name with a colon), '
+        note='Known finding F48 (the error text of an unguarded tag access doubles with every nested constant conditional in the key: no verdict at depth ~30; reported through a growth probe). ' + TB + 'The proof of resolve_type_terminates exposed F40 (namespace re-derived from the qualified name; stack overflow on a JSON schema name with a colon), '
                   'repaired in /repo; the model mirrors the repaired code. The validator beyond isEntityDescendant is covered by the runtime oracle only.',
         technique='Coq termination / soundness proofs of the resolver model + AST-level differential correspondence + exhaustive small-graph runtime exploration'),
     'C17': dict(
